@@ -292,6 +292,7 @@ pub fn kill(pid: u32, signal: i32) -> Result<()> {
     Ok(())
 }
 
+pub const F_DUPFD_CLOEXEC: i32 = libc::F_DUPFD_CLOEXEC;
 pub const F_GETFD: i32 = libc::F_GETFD;
 pub const F_SETFD: i32 = libc::F_SETFD;
 pub const FD_CLOEXEC: i32 = libc::FD_CLOEXEC;
